@@ -63,6 +63,11 @@ def cases(tier, seed):
                 if fset:
                     yield {"k": "conv", "skind": skind, "files": fset, "tkind": tkind, "sel": [fset[0]], "mode": "upper", "absent": True}
                     yield {"k": "conv", "skind": skind, "files": fset, "tkind": tkind, "sel": [], "mode": "upper", "absent": True}
+            if fset and skind == "dsk":
+                # a source disk whose directory has KILLed and never-used entries in front of and between the live ones
+                for tkind in ("cas", "dsk"):
+                    yield {"k": "conv", "skind": "dsk", "files": fset, "tkind": tkind, "sel": None, "mode": None, "absent": False, "holes": True}
+                    yield {"k": "conv", "skind": "dsk", "files": fset, "tkind": tkind, "sel": [fset[-1]], "mode": "lower", "absent": False, "holes": True}
             if fset:
                 yield {"k": "chain", "skind": skind, "files": fset}
                 if skind == "cas":
@@ -74,7 +79,10 @@ def cases(tier, seed):
                 yield {"k": "bin", "skind": skind, "files": fset, "sel": [fset[0]]}
 
 
-def write_source(path, kind, fset, gaps=None):
+HOLE_SLOTS = [1, 3, 4, 7, 9]
+
+
+def write_source(path, kind, fset, gaps=None, holes=False):
     specs = [FILES[i] for i in fset]
     if kind == "cas":
         b = tape.write([dict(name=s["name"], type=s["type"], dtype=s["dtype"], load=s["load"], exec=s["exec"], data=C.pattern(s["n"], s["pat"])) for s in specs],
@@ -90,8 +98,10 @@ def write_source(path, kind, fset, gaps=None):
             if len(fl) % 2:                      # every second file on a descending chain, the first one across the directory track
                 chain = chain[::-1]
             fl.append({"name": s["name"], "ext": s["ext"], "type": s["type"], "dtype": s["dtype"], "stream": stream, "chain": chain})
+            if holes:       # KILLed entries in slots 0, 2 and 5, never-used ones elsewhere, live files in between
+                fl[-1]["slot"] = HOLE_SLOTS[len(fl) - 1]
             g += need + 1
-        b = dskfs.write(fl)
+        b = dskfs.write(fl, killed=(0, 2, 5) if holes else ())
     open(path, "wb").write(b)
     return specs
 
@@ -129,7 +139,7 @@ def check_case(case):
     names = ",".join(FILES[i]["name"] for i in case["files"]) or "none"
     if case["k"] == "conv":
         sel = "all" if case["sel"] is None else (",".join(FILES[i]["name"] for i in case["sel"]) + ("+absent" if case["absent"] else "")) or "absent-only"
-        cell = "conv|{}{}>{}|{}|sel={}|{}".format(case["skind"], ".gaps" if case.get("gaps") else "", case["tkind"], names, sel, case["mode"] or "-")
+        cell = "conv|{}{}>{}|{}|sel={}|{}".format(case["skind"], ".gaps" if case.get("gaps") else ".holes" if case.get("holes") else "", case["tkind"], names, sel, case["mode"] or "-")
     elif case["k"] == "chain":
         cell = "chain|{}|{}".format(case["skind"], names)
     else:
@@ -143,7 +153,7 @@ def check_case(case):
     try:
         os.chdir(td)
         src = "src." + case["skind"]
-        specs = write_source(src, case["skind"], case["files"], case.get("gaps"))
+        specs = write_source(src, case["skind"], case["files"], case.get("gaps"), case.get("holes", False))
         if case["k"] == "conv":
             tgt = "tgt." + case["tkind"]
             files_arg = None
@@ -210,7 +220,7 @@ def describe(tier):
     return {
         "alphabet": "source images written by the independent writers (cassette and disk) holding every subset of size <= 2 (" +
                     ("and every subset of size 3" if tier == "thorough" else "4 subsets of size 3") + ") of {} plus two reordered sets and four sets on which one name occurs twice; target kind cas/dsk; "
-                    "disk sources on descending and track-17-crossing chains; cassette sources recorded with gaps (gap flag $FF); "
+                    "disk sources on descending and track-17-crossing chains, and with KILLed / never-used directory entries before and between the files; cassette sources recorded with gaps (gap flag $FF); "
                     "--files = every non-empty subset of the names in upper/lower/mixed case, with an absent name, and only an absent name; chains "
                     "cas>dsk>cas and dsk>cas>dsk; --to_bin on 1- and 2-file sources".format([C.brief(f) for f in FILES]),
         "bound": "single conversions and chains of two",
